@@ -23,7 +23,14 @@ type cell struct {
 	Own       []string // safe types whose contract covers this context
 	Attr      string   // attribute that holds the value ("" = element content / comment)
 	Class     string
-	MayReject bool // shapes the engine refuses today (conditional names with an empty branch, ...): no acceptance required
+	MayReject bool   // shapes the engine refuses today (conditional names with an empty branch, ...): no acceptance required
+	Known     string // id of the known finding a violation in this cell belongs to (positions the engine does not model)
+}
+
+func mkk(id, class, tmpl, attr, known string) cell {
+	c := mk(id, class, tmpl, attr)
+	c.Known = known
+	return c
 }
 
 func mk(id, class, tmpl, attr string, own ...string) cell {
@@ -37,6 +44,13 @@ func mkr(id, class, tmpl, attr string, own ...string) cell {
 }
 
 var cells = []cell{
+	// positions inside a nested language that the engine does not model: no type's contract covers them, so a typed
+	// value would have to be handled like a string (refused); the engine accepts the type of the outer context
+	mkk("srcdoc-in-script", "HTMLValOnly+prefix", "<iframe srcdoc=\"<script>{{.V}}</script>\"></iframe>", "srcdoc", "K-srcdocpartial"),
+	mkk("srcdoc-in-href", "HTMLValOnly+prefix", `<iframe srcdoc="<a href='{{.V}}'>x</a>"></iframe>`, "srcdoc", "K-srcdocpartial"),
+	mkk("script-in-template-literal", "Script+jslex", "<script>var q = \"`\"; var t = `{{.V}}`; var r = \"`\";</script>", "", "K-jslex"),
+	mkk("script-in-block-comment", "Script+jslex", `<script>/* {{.V}} */ init({});</script>`, "", "K-jslex"),
+	mkk("script-in-string", "Script+jslex", `<script>var s = "{{.V}}";</script>`, "", "K-jslex"),
 	mk("text-top", "HTML", `{{.V}}`, "", "HTML"),
 	mk("text-div", "HTML", `<div>{{.V}}</div>`, "", "HTML"),
 	mk("text-p-after", "HTML", `<p>a<b>c</b>{{.V}}</p>`, "", "HTML"),
@@ -168,7 +182,9 @@ func check(c Case) evid.Outcome {
 	if !own && !c.NilPtr {
 		sout, serr := run(s)
 		if (terr == nil) != (serr == nil) || tout != sout {
-			return evid.Viol("cell %s (%s): %s value (ptr depth %d) with contents %q is not in its own context but is not handled like the plain string: typed -> (%q, %v), string -> (%q, %v)", cl.ID, cl.Tmpl, c.Type, c.PtrDepth, s, tout, terr, sout, serr)
+			v := evid.Viol("cell %s (%s): %s value (ptr depth %d) with contents %q is not in its own context but is not handled like the plain string: typed -> (%q, %v), string -> (%q, %v)", cl.ID, cl.Tmpl, c.Type, c.PtrDepth, s, tout, terr, sout, serr)
+			v.Finding = cl.Known
+			return v
 		}
 		o.Labels = append(o.Labels, "foreign")
 	}
